@@ -233,8 +233,10 @@ def insDesc (x : Val) : List Val → List Val
 REVERSE store order) -/
 def sortDesc (l : List Val) : List Val := l.foldl (fun acc x => insDesc x acc) []
 
-/-- power of one validator: `⌊share · 2^32 / total⌋`, and 0 for `total = 0` -/
-def power (share total : Nat) : Nat := share * maxPower / total
+/-- power of one validator: `⌊share · 2^32 / total⌋` when `total > 0`; the Go code leaves the
+power at 0 otherwise (`if totalPower.Sign() > 0 { … }`) — the branch is explicit here, it does not
+rely on `x / 0 = 0` -/
+def power (share total : Nat) : Nat := if total > 0 then share * maxPower / total else 0
 
 /-- the validator's EVM accounts on `chain`, in registration order -/
 def matching (chain : Nat) (v : Val) : List Acct :=
